@@ -207,3 +207,18 @@ func TestSubseqOutOfBounds(t *testing.T) {
 		Panics: true,
 	}).Test(t)
 }
+
+func TestSubseqNotShared(t *testing.T) {
+	(&sliptest.Function{
+		Source: `(let* ((v (vector 1 2 3)) (sub (subseq v 1)))
+                   (setf (aref sub 0) 9)
+                   (list (coerce v 'list) (coerce sub 'list)))`,
+		Expect: "((1 2 3) (9 3))",
+	}).Test(t)
+	(&sliptest.Function{
+		Source: `(let* ((v (coerce '(1 2 3) 'octets)) (sub (subseq v 1)))
+                   (setf (aref sub 0) 9)
+                   (list (coerce v 'list) (coerce sub 'list)))`,
+		Expect: "((1 2 3) (9 3))",
+	}).Test(t)
+}
